@@ -148,6 +148,7 @@ func init() {
 			{Name: "edges", Run: edgeUnit("bed")},
 			{Name: "fieldlens", TShards: 2, Run: lengthUnit("bed")},
 			{Name: "parallel", Race: true, Run: codecParallel("bed")},
+			{Name: "histories", Run: codecHistories("bed")},
 		},
 	})
 }
